@@ -1,6 +1,7 @@
 import ComposeVerif.Model.Dotenv
 import ComposeVerif.Spec.Dotenv
 import ComposeVerif.Lemmas.Dotenv
+import ComposeVerif.Lemmas.DotenvMore
 import ComposeVerif.Neg.C18
 import ComposeVerif.Gen.Dotenv
 /-!
@@ -43,20 +44,30 @@ theorem unicode_classes_are_modelled :
 
 /-! ## never crashes, always terminates -/
 
-/-- For EVERY input string and lookup function the parser's own index and slice expressions
-    (`src[pos:]`, `src[0]`, `src[0:i]`, `src[offset:]`, `strings.Split(..)[0]`, `src[i]`, `src[i+1:]`,
-    `src[:valEndIndex]`) stay in range and the statement loop terminates within `len(src)+2`
-    iterations: the only panic outcomes left are those of `template.Substitute` (property C07). -/
-theorem parse_never_panics (src : Str) (lookup : Env) (s : Site) (h : parse src lookup = .panic s) :
+/-- **Never crashes, always terminates.**  For EVERY input string and EVERY lookup function, parsing returns a
+    map or an error: none of the parser's own index and slice expressions (`src[pos:]`, `src[0]`, `src[0:i]`,
+    `src[offset:]`, `strings.Split(..)[0]`, `src[i]`, `src[i+1:]`, `src[:valEndIndex]`) is ever out of range,
+    the statement loop ends within `len(src)+2` iterations, and `template.Substitute` (C07
+    `subst_never_panics`, with the fuel `Template.fuelFor` that `subst` itself supplies) does not panic. -/
+theorem parse_never_panics (src : Str) (lookup : Env) (s : Site) : parse src lookup ≠ .panic s :=
+  parse_ne_panic src lookup s
+
+/-- the part of the above that does not depend on C07: a panic of `parse` could only be a panic of
+    `template.Substitute` on some input -/
+theorem parse_own_sites_never_panic (src : Str) (lookup : Env) (s : Site) (h : parse src lookup = .panic s) :
     ∃ p, s = .tmpl p ∧ ∃ env t, Template.subst env t = .panic p :=
   parse_panic_sites src lookup s h
 
-/-- … hence: if `template.Substitute` never panics (C07 `subst_never_panics`), parsing never panics. -/
-theorem parse_never_panics_of_subst (hsub : ∀ env t p, Template.subst env t ≠ .panic p)
-    (src : Str) (lookup : Env) (s : Site) : parse src lookup ≠ .panic s := by
-  intro h
-  obtain ⟨p, _, env, t, hp⟩ := parse_panic_sites src lookup s h
-  exact hsub env t p hp
+/-- `GetEnvFromFile` on any list of file contents never panics either -/
+theorem fromFiles_never_panics (cur : Env) (files : List Str) (m : Map) (s : Site) : fromFiles cur files m ≠ .panic s :=
+  fromFiles_ne_panic cur files m s
+
+/-- … and neither does `ReadWithLookup` -/
+theorem readFiles_never_panics (lookup : Env) (files : List Str) (m : Map) (s : Site) : readFiles lookup files m ≠ .panic s :=
+  readFiles_ne_panic lookup files m s
+
+/-- keys that start with a digit are dropped by `ReadWithLookup` (and only by it) -/
+example : readFiles (fun _ => none) [['1', 'A', '=', 'x', '\n', 'B', '=', 'y', '\n']] [] = .ok [(['B'], ['y'])] := by decide
 
 /-! ## the parser computes the grammar's meaning -/
 
@@ -108,6 +119,99 @@ theorem parse_render_noFinalNL (lookup : Env) (ls : List Line) (hwf : WF ls = tr
     funext m
     exact parseLoop_last_line f l m lookup hwf.2
 
+
+/-! ## interpolation: values built from the Compose interpolation grammar (C07) -/
+
+/-- an unquoted value that is the concrete syntax of a well-formed template means what the interpolation
+    grammar says (C07 `subst_render`) -/
+theorem value_unq_template (env : Env) (t : List Seg) (h : Template.WF t = true) :
+    (Value.unq (renderL t)).eval env = evalOut env t :=
+  value_unq_template_lemma env t h
+
+/-- the same between double quotes, after escape processing -/
+theorem value_dq_template (env : Env) (items : List QItem) (t : List Seg)
+    (he : expandEscapes (rawItems '"' items) = renderL t) (h : Template.WF t = true) :
+    (Value.dq items).eval env = evalOut env t :=
+  value_dq_template_lemma env items t he h
+
+/-- the environment of the interpolation: the lookup function first … -/
+theorem envOf_lookup_first (lookup : Env) (m : Map) (k v : Str) (h : lookup k = some v) : envOf lookup m k = some v :=
+  envOf_lookup_first_lemma lookup m k v h
+
+/-- … (a variable the lookup reports as set to the empty string is set: it does not fall through) … -/
+example (lookup : Env) (m : Map) (k : Str) (h : lookup k = some []) : envOf lookup m k = some [] :=
+  envOf_lookup_first_lemma lookup m k [] h
+
+/-- … earlier lines second -/
+theorem envOf_earlier_second (lookup : Env) (m : Map) (k : Str) (h : lookup k = none) : envOf lookup m k = get m k :=
+  envOf_earlier_second_lemma lookup m k h
+
+/-- **Refinement with interpolation.**  After ANY well-formed lines, an assignment whose unquoted value is
+    the concrete syntax of ANY well-formed template `t` (variables, braces, the six operators, nesting)
+    defines the key as the grammar's meaning of `t` in the environment "lookup first, earlier lines second";
+    an error of the template (`${X:?msg}`) is the error of the file, with the earlier lines evaluated. -/
+theorem parse_render_interpolated (lookup : Env) (ls : List Line) (hwf : WF ls = true)
+    (i : Str) (e : Option Str) (key w1 : Str) (sep : Sep) (w2 : Str) (t : List Seg) (tr : Str) (c : Option Str)
+    (ht : Template.WF t = true) (hl : (Line.assign i e key w1 sep w2 (.unq (renderL t)) tr c).wf = true) :
+    parse (render (ls ++ [.assign i e key w1 sep w2 (.unq (renderL t)) tr c])) lookup =
+      (evalLines lookup ls).andThen
+        (fun m => assignOut (evalOut (envOf lookup m) t) (fun x => .ok (put m key x)) m) := by
+  rw [parse_render_snoc lookup ls _ hwf hl]
+  congr 1
+  funext m
+  rw [evalFrom_single_assign, value_unq_template_lemma _ t ht]
+
+/-- the same for a double-quoted value without quote or backslash characters -/
+theorem parse_render_interpolated_dq (lookup : Env) (ls : List Line) (hwf : WF ls = true)
+    (i : Str) (e : Option Str) (key w1 : Str) (sep : Sep) (w2 : Str) (t : List Seg) (tr : Str) (c : Option Str)
+    (ht : Template.WF t = true) (hs : ∀ x ∈ renderL t, x ≠ '\\')
+    (hl : (Line.assign i e key w1 sep w2 (.dq ((renderL t).map QItem.chr)) tr c).wf = true) :
+    parse (render (ls ++ [.assign i e key w1 sep w2 (.dq ((renderL t).map QItem.chr)) tr c])) lookup =
+      (evalLines lookup ls).andThen
+        (fun m => assignOut (evalOut (envOf lookup m) t) (fun x => .ok (put m key x)) m) := by
+  rw [parse_render_snoc lookup ls _ hwf hl]
+  congr 1
+  funext m
+  rw [evalFrom_single_assign, value_dq_template_lemma _ _ t (by rw [rawItems_chr, expandEscapes_plain_lemma _ hs]) ht]
+
+/-- `$NAME` / `${NAME}`: the lookup's value if the lookup has one (even the empty string), else the value an
+    earlier line gave, else empty -/
+theorem interpolation_precedence (lookup : Env) (m : Map) (n : Str) (b : Bool) :
+    evalOut (envOf lookup m) [Seg.var n b] = .ok (((lookup n).or (get m n)).getD []) :=
+  interpolation_precedence_lemma lookup m n b
+
+/-- non-vacuity: `K=a${A:-$B}` satisfies the hypotheses -/
+example : Template.WF [.lit ['a'], .op ['A'] .colonDash [.var ['B'] false]] = true ∧
+    (Line.assign [] none ['K'] [] .eq [] (.unq (renderL [.lit ['a'], .op ['A'] .colonDash [.var ['B'] false]])) [] none).wf = true := by
+  decide
+/-- the seeded change C18-2 on the model level: lookup says `A` is set to "", an earlier line says `A=x` -/
+example : parse ['A', '=', 'x', '\n', 'B', '=', '$', 'A', '\n'] (fun k => if k = ['A'] then some [] else none) =
+    .ok [(['A'], ['x']), (['B'], [])] := by decide
+
+/-! ## several files (`GetEnvFromFile`) -/
+
+/-- **Refinement for several files.**  For ANY list of well-formed files (each optionally preceded by a
+    byte-order mark), `GetEnvFromFile` computes the fold the grammar describes: each file is evaluated with the
+    caller's environment first and the variables of earlier files second; its variables replace those of earlier
+    files; the first failing file stops the fold. -/
+theorem fromFiles_render (cur : Env) (fs : List (Bool × List Line)) (m : Map) (h : ∀ f ∈ fs, WF f.2 = true) :
+    fromFiles cur (fs.map fun f => withBOM f.1 (render f.2)) m = evalFilesFrom cur (fs.map Prod.snd) m :=
+  fromFiles_render_lemma cur fs m h
+
+/-- the lookup chain while a file is read: caller's environment, then earlier files, then earlier lines -/
+theorem envOf_chain (cur : Env) (m m' : Map) (k : Str) :
+    envOf (envOf cur m) m' k = (cur k).or ((get m k).or (get m' k)) :=
+  envOf_chain_lemma cur m m' k
+
+/-- merging a file's variables: the file's value where it has one, the accumulated value otherwise -/
+theorem get_mergeInto (env m : Map) (k : Str) (h : (env.map Prod.fst).Nodup) :
+    get (mergeInto m env) k = (get env k).or (get m k) :=
+  get_mergeInto_lemma env m k h
+
+example : fromFiles (fun k => if k = ['A'] then some ['e'] else none)
+    [['A', '=', '1', '\n', 'B', '=', '$', 'A', '\n'], ['\uFEFF', 'C', '=', '$', 'B', '\n', 'B', '=', '2']] [] =
+    .ok [(['A'], ['1']), (['B'], ['2']), (['C'], ['e'])] := by decide
+
 /-! ## malformed input is an error -/
 
 /-- After ANY well-formed lines, an assignment whose value opens a quote that is never closed before the end
@@ -139,7 +243,7 @@ example : parse ['A', '=', '1', '\n', 'K', '=', '\'', 'a', '\n', 'B', '=', '2'] 
 theorem invalid_key_err_partial (lookup : Env) (ls : List Line) (hwf : WF ls = true)
     (indent : Str) (exp : Option Str) (pre : Str) (c : Char) (rest : Str)
     (hi : nbAll indent = true) (he : expOk exp = true) (hpre : pre.all okChar = true)
-    (hlead : pre.dropWhile isSpaceNB = pre) (hexp : exportKw.isPrefixOf pre = false)
+    (hlead : pre.dropWhile isSpaceNB = pre)
     (hc : badChar c = true) (hhash : pre ≠ [] ∨ c ≠ '#') :
     parse (render ls ++ (indent ++ (renderExp exp ++ (pre ++ c :: rest)))) lookup =
       (evalLines lookup ls).andThen (fun m => .err .unexpectedChar m) := by
@@ -147,7 +251,12 @@ theorem invalid_key_err_partial (lookup : Env) (ls : List Line) (hwf : WF ls = t
   rw [hf]
   congr 1
   funext m
-  exact parseLoop_badkey (f + 1) indent exp pre c rest m lookup hi he hpre hlead hexp hc hhash
+  exact parseLoop_badkey_any (f + 1) indent exp pre c rest m lookup hi he hpre hlead hc hhash
+
+/-- `export` in front of an invalid key changes nothing: the key text may itself begin with the word `export`
+    (`export$=1`, `export A$=1` written without the `exp` field) — the bad character is still reached -/
+example : parse ['e', 'x', 'p', 'o', 'r', 't', ' ', 'A', '$', '=', '1'] (fun _ => none) = .err .unexpectedChar [] := by decide
+example : parse ['e', 'x', 'p', 'o', 'r', 't', '$', '=', '1'] (fun _ => none) = .err .unexpectedChar [] := by decide
 
 /-- After ANY well-formed lines, an assignment whose key text consists of two words separated by white space
     (space, tab, VT, FF, CR, NEL, NBSP — all of them after the `fix:` commit) is the error "key cannot contain a space". -/
@@ -165,7 +274,7 @@ theorem key_with_space_err (lookup : Env) (ls : List Line) (hwf : WF ls = true)
   exact parseLoop_keyspace (f + 1) indent exp k1 ws k2 ws1 sep X m lookup hi he hk1 hws hne hk2 hne2 h1
 
 /-- non-vacuity: `A$B=1` after a valid line -/
-example : badChar '$' = true ∧ ['A'].all okChar = true ∧ exportKw.isPrefixOf ['A'] = false := by decide
+example : badChar '$' = true ∧ ['A'].all okChar = true ∧ ['A'].dropWhile isSpaceNB = ['A'] := by decide
 example : parse ['X', '=', '1', '\n', 'A', '$', 'B', '=', '1'] (fun _ => none) = .err .unexpectedChar [(['X'], ['1'])] := by decide
 /-- a key with an inner space or tab is rejected (after the `fix:` commit for tabs) -/
 example : parse ['A', ' ', 'B', '=', '1'] (fun _ => none) = .err .keySpace [] := by decide
@@ -202,6 +311,20 @@ theorem expandEscapes_octal (d1 d2 d3 : Char) (s : Str)
     (h1 : isOct d1 = true) (h2 : isOct d2 = true) (h3 : isOct d3 = true) (hv : octVal [d1, d2, d3] ≤ 255) :
     expandEscapes ('\\' :: '0' :: d1 :: d2 :: d3 :: s) = Char.ofNat (octVal [d1, d2, d3]) :: expandEscapes s :=
   expandEscapes_octal_lemma d1 d2 d3 s h1 h2 h3 hv
+
+/-- the `\\0` escape in general: the match is `\\0` plus up to three digits (greedy); it is replaced by
+    `octalRepl` of the digits -/
+theorem expandEscapes_zero (s : Str) :
+    expandEscapes ('\\' :: '0' :: s) =
+      octalRepl ((s.take 3).takeWhile Char.isDigit) ++
+        expandEscapes (s.drop ((s.take 3).takeWhile Char.isDigit).length) :=
+  expandEscapes_zero_lemma s
+
+/-- … and unless the digits are exactly three octal digits of value ≤ 255 the replacement is the match with
+    its `0` removed (fewer than three digits, a digit 8 or 9, a value above 255) -/
+theorem octalRepl_rejected (ds : Str) (h : ¬ (ds.length = 3 ∧ ds.all isOct = true ∧ octVal ds ≤ 255)) :
+    octalRepl ds = '\\' :: ds :=
+  octalRepl_keep ds h
 
 /-- non-vacuity and the failure cases (fewer than three digits, value > 255: the rewritten match is kept) -/
 example : expandEscapes ['\\', '0', '1', '2', '3', 'Z'] = ['S', 'Z'] := by decide
